@@ -1637,10 +1637,26 @@ class SymCtx:
         s.add(*self.pc)
         # first try a "generic position" assignment of the real inputs (turns non-linear conditions into ground ones)
         reals = [c for n_, c in self.inputs.items() if self.input_kinds.get(n_) == 'real']
-        for scale, off in (((1, Fraction(1, 13)),) if noninteger else ()) + ((1, 0), (7, 0)):
-            # (first choice: non-integer values, so that casts / truncations in the real code are visible to the twin)
+        ints = [c for n_, c in self.inputs.items() if self.input_kinds.get(n_) == 'int'] if noninteger else []
+        attempts = [(1, 0, False, True), (7, 0, False, True)]
+        if noninteger:
+            # first choices: non-integer reals and integer inputs away from 0/1, so that casts / truncations in the real
+            # code are visible to the twin (reals + integers, integers only, reals only)
+            attempts = [(1, Fraction(1, 13), True, True), (1, 0, True, False), (1, Fraction(1, 13), False, True)] + attempts
+        for scale, off, pin_ints, pin_reals in attempts:
             s.push()
-            s.add(*[c == z3.RealVal(str(Fraction((i * 37) % 11 * scale + i + 1, 1 + (i % 3)) + off)) for i, c in enumerate(reals)])
+            if pin_ints and ints:
+                # greedily, each integer input on its own (choice variables have small ranges and stay free)
+                for i, c in enumerate(ints):
+                    s.push()
+                    s.add(c == 3 + 2 * i)
+                    if s.check() != z3.sat:
+                        s.pop()
+                    else:
+                        s.pop()
+                        s.add(c == 3 + 2 * i)
+            if pin_reals:
+                s.add(*[c == z3.RealVal(str(Fraction((i * 37) % 11 * scale + i + 1, 1 + (i % 3)) + off)) for i, c in enumerate(reals)])
             if s.check() == z3.sat:
                 m = s.model()
                 return self._extract(m), m
